@@ -37,7 +37,7 @@ ASSUMPTIONS = [
     "a field value 'changes' when it is replaced by another object that is not an equal value of the same type; node-valued fields must keep the identical object",
     "registry membership may change only as specified for detach / replace (C03's subject) and is not part of the frame",
 ]
-MUST_SEE = ["ops", "frames_checked", "raising_ops", "watched_writes_on_new_nodes", "setattr_rejected", "delattr_rejected", "repo_tests_contract_evaluations", "deserialize_registry_hits", "failing_replace_on_suffix_twin", "transform_returns_existing_node"]
+MUST_SEE = ["ops", "frames_checked", "raising_ops", "watched_writes_on_new_nodes", "setattr_rejected", "delattr_rejected", "repo_tests_contract_evaluations", "deserialize_registry_hits", "failing_replace_on_suffix_twin", "transform_returns_existing_node", "transform_rebuilds_equal_node"]
 CONFIG = {
     "quick": {"shards": 16, "histories": 30, "ops": 35, "watchdog_s": 600},
     "thorough": {"shards": 32, "histories": 200, "ops": 60, "watchdog_s": 3400},
@@ -269,7 +269,7 @@ def histories(ctx, U, state, take_frame, diff_frame):
 
             V().visit(n)
             target = rng.choice([f"{P}Leaf", f"{P}Un", f"{P}Name", f"{P}List"])
-            action = rng.choice(["rewrite", "remove", "fresh", "unwrap", "unwrap"])
+            action = rng.choice(["rewrite", "remove", "fresh", "unwrap", "unwrap", "rebuild_equal", "rebuild_equal"])
 
             def rule(self_, node):
                 if raising and rng.random() < 0.5:
@@ -279,6 +279,10 @@ def histories(ctx, U, state, take_frame, diff_frame):
                     return dataclasses.replace(g, origin=O.build_origin(("gen", 2)))
                 if action == "remove":
                     return None
+                if action == "rebuild_equal":
+                    # a normaliser that always rebuilds the node, even when nothing changes
+                    ctx.count("transform_rebuilds_equal_node")
+                    return dataclasses.replace(node)
                 if action == "unwrap":
                     # hand back an already existing node (the first child) in place of its parent
                     kids = list(node.get_child_nodes())
